@@ -14,10 +14,23 @@ import (
 // InitBMNumber creates a new BMNumber for a string
 func ImportString(input string) (*BMNumber, error) {
 
+	// The import functions may create a dynamical type (taking the registry lock), so the
+	// matchers are copied out before being tried
+	type matcher struct {
+		expr string
+		imp  ImportFunc
+	}
+	registryMu.RLock()
+	matchers := make([]matcher, 0, len(AllMatchers))
 	for k, v := range AllMatchers {
-		re := regexp.MustCompile(k)
+		matchers = append(matchers, matcher{k, v})
+	}
+	registryMu.RUnlock()
+
+	for _, m := range matchers {
+		re := regexp.MustCompile(m.expr)
 		if re.MatchString(input) {
-			return v(re, input)
+			return m.imp(re, input)
 		}
 	}
 
